@@ -683,6 +683,10 @@ class AEnv:
                 self.err("einsum output index not among the inputs", v, ch)
                 return None
             out.append(letter[ch])
+        occurrences = "".join(x[3:] if x.startswith("...") else x for x in ins)
+        for ch in letter:
+            if ch not in r and occurrences.count(ch) == 1 and not is_one(letter[ch].size):
+                self.err("einsum sums an axis on its own (it is neither paired with another operand's axis nor kept)", v, f"index '{ch}' in {spec!r}")
         for ch, ax in letter.items():
             if ch not in r and not zero:
                 if not ax.uniform or ax.label != ONE:
